@@ -131,7 +131,7 @@ func VerifC13NumericKeys() {
 	_, err := c.CreateTable(vCtx, in)
 	nd.Assert(err == nil, "setup-createtable")
 	groups := [][]string{{"1e19", "10000000000000000000"}, {"-1e30", "-1000000000000000000000000000000"}, {"9223372036854775808", "9.223372036854775808e18"},
-		{"0.5", "5e-1"}, {"-7", "-7.0"}, {"1e-10", "0.0000000001"}}
+		{"0.5", "5e-1"}, {"-7", "-7.0"}, {"1e-10", "0.0000000001"}, {"10000000000000000", "1e16"}, {"2.5e10", "25000000000"}}
 	g := groups[nd.Choice("number", len(groups))]
 	w := nd.Choice("written-as", 2)
 	nd.Assert(vPut(c, vItem{"p": vN(g[w]), "v": vS("x")}) == nil, "C13-numeric-put-noerr")
